@@ -401,6 +401,39 @@ def Acc.inside (base len : Nat) (a : Acc) : Bool := decide (base ≤ a.addr ∧ 
 def trapCodeM (k : String) : Nat := if k = "oob-memory" then codeMemOOB else trapCode k
 def trapKindM (c : Nat) : String := if c = codeMemOOB then "oob-memory" else trapKind c
 
+/-! ## strict SSA in one block -/
+
+def MInstr.typedResults : MInstr → List (Val × Ty)
+  | .base i => i.typedResults
+  | .extload _ r ty _ _ => [(r, ty)]
+
+def MInstr.operands : MInstr → List Val
+  | .base i => i.operands
+  | .extload _ _ _ p _ => [p]
+
+def MInstr.isBranch : MInstr → Bool
+  | .base i => i.branch?.isSome
+  | .extload .. => false
+
+/-- definitions before uses: every operand is in `D` (the block parameters and the results of the earlier
+instructions), and the shifted operand of a shift has the type of the shift (what `SsaPass.wellFormed` asks of a
+one-block function, see `Scoped` in `Wz/Proofs/C01_Front_WF.lean`) -/
+def ScopedM : List (Val × Ty) → List MInstr → Prop
+  | _, [] => True
+  | D, i :: is => (∀ o ∈ i.operands, o ∈ D.map (·.1)) ∧
+      (match i with
+       | .base (.bin op _ ty x _) => isShift op → (x, ty) ∈ D
+       | _ => True) ∧
+      ScopedM (D ++ i.typedResults) is
+
+/-- strict SSA in one block: no branch instruction; the values defined — the block parameters, then the results in
+order — are 0, 1, 2, … (so every value is defined once, by the instruction whose position its id says); every
+operand is defined before its use.  (A read of an undefined value, which `runM` would answer with 0, cannot happen.) -/
+def WellFormedM (g : MFunc) : Prop :=
+  (∀ i ∈ g.instrs, i.isBranch = false) ∧
+  (∃ N, (g.params ++ g.instrs.flatMap (·.typedResults)).map (·.1) = List.range N) ∧
+  ScopedM g.params g.instrs
+
 /-- the SSA outcome `o` refines the outcome `sp` of the reference semantics (outcome and final linear memory): the
 same result values, or the trap code of the same trap kind; no calls; and the final flat memory still embeds the
 final linear memory (so its part `[base, base+len)` IS the specification's final memory, and the module context is
